@@ -51,14 +51,16 @@ func (s *CadencePoolSvc) seen(id string) []time.Time {
 
 func TestC20Cadence(t *testing.T) {
 	rec := vt.For("C20")
-	rec.Rule("cadence of the binary: two `vipnode agent` processes (fake light-client nodes) run with a generated --update-interval just above the 5 s minimum, one against an http:// and one against a ws:// harness pool that notes when keep-alives arrive; over 3 consecutive gaps per agent: the span is at least 3 x 0.95 x interval (ticks never come early) and the shortest gap is at most 1.25 x interval (stalls of a loaded machine stretch single gaps, a wrong period stretches all of them); distinct by interval")
+	rec.Rule("cadence of the binary: two `vipnode agent` processes (fake light-client nodes) run with a generated --update-interval just above the 5 s minimum (5.40-5.49 s: a fractional value that rounding or truncating to whole seconds would shorten by more than the lower bound's slack), one against an http:// and one against a ws:// harness pool that notes when keep-alives arrive; over 3 consecutive gaps per agent: the span is at least 3 x 0.95 x interval (ticks never come early) and the shortest gap is at most 1.25 x interval (stalls of a loaded machine stretch single gaps, a wrong period stretches all of them); distinct by interval")
 	rec.Assume("real time; bounds chosen so that machine load cannot produce a false alarm: a late tick is followed by a shorter gap (time.Tick keeps its schedule)")
 	bin, err := vipnodeBinary()
 	if err != nil {
 		t.Fatal(err)
 	}
 	check(t, func(rt *rapid.T) {
-		interval := 5100*time.Millisecond + time.Duration(rapid.IntRange(0, 900).Draw(rt, "extraMillis"))*time.Millisecond
+		// a fractional number of seconds just below a half: were the validated value rounded or truncated to whole
+		// seconds afterwards, the loop would run at 5 s and four keep-alives would span 15 s - below the lower bound
+		interval := 5400*time.Millisecond + time.Duration(rapid.IntRange(0, 90).Draw(rt, "extraMillis"))*time.Millisecond
 		dir := tempDir("c20-cadence-")
 		defer removeAll(dir)
 		svc := &CadencePoolSvc{times: map[string][]time.Time{}}
